@@ -26,6 +26,8 @@ EM, IM = "partitura.io.exportmatch", "partitura.io.importmatch"
 
 
 def run(ctx):
+    from ..rules import round5 as _R5
+    _R5.rule_eq_covers_fields(ctx, 'partitura.io.matchfile_utils')
     prog = ctx.prog
     w = world(ctx)
     # ---- F7c
